@@ -25,6 +25,7 @@ type HSpec struct {
 	Fuel      int64          `json:"fuel"`
 	Reach     []string       `json:"reach"` // vacuity witnesses that must be reached
 	MergeOff  bool           `json:"merge_off"`
+	Automaton int            `json:"automaton"` // >0: state-merged exploration, value = cap on abstract states
 }
 
 type CSpec struct {
@@ -190,7 +191,11 @@ func runCheck(args []string) int {
 		if w, err := strconv.Atoi(os.Getenv("VERIF_WORKERS")); err == nil && w > 0 {
 			r.Workers = w
 		}
-		r.Explore()
+		if h.Automaton > 0 {
+			r = exploreAutomaton(r, h.Automaton)
+		} else {
+			r.Explore()
+		}
 		fmt.Fprintln(os.Stderr, r.Summary())
 		he := harnessEvidence{Harness: h.Fn, Params: params, Paths: r.Paths, Outcomes: r.Outcomes, Asserts: r.Asserts,
 			Queries: r.Queries, SolverS: r.SolverDur.Seconds(), Instrs: r.Instrs, WallS: r.Wall.Seconds(), Reached: r.Reached,
@@ -227,7 +232,11 @@ func runCheck(args []string) int {
 			if i >= 24 {
 				break
 			}
-			passCases = append(passCases, passCase{ReplayCase{Harness: r.Harness, Label: "", Inputs: m, Params: params}, r.PassObs[i]})
+			pc := passCase{ReplayCase{Harness: r.Harness, Label: "", Inputs: m, Params: params}, r.PassObs[i]}
+			if i < len(r.PassPBytes) {
+				pc.c.PBytes = r.PassPBytes[i]
+			}
+			passCases = append(passCases, pc)
 		}
 	}
 
@@ -258,7 +267,7 @@ func runCheck(args []string) int {
 		var cases []ReplayCase
 		for _, k := range ks {
 			v := byKey[k]
-			cases = append(cases, ReplayCase{Harness: v.Harness, Label: v.Label, Inputs: v.Inputs, Params: v.Params})
+			cases = append(cases, ReplayCase{Harness: v.Harness, Label: v.Label, Inputs: v.Inputs, Params: v.Params, PBytes: v.PBytes})
 		}
 		res, err := nb.Replay(cases)
 		if err != nil {
@@ -396,7 +405,7 @@ func runCheck(args []string) int {
 		}
 		dir := filepath.Join(replayRoot, fmt.Sprintf("%s-%s", id, shortHash(k)))
 		os.MkdirAll(dir, 0o755)
-		rc := []ReplayCase{{Harness: v.Harness, Label: v.Label, Inputs: v.Inputs, Params: v.Params}}
+		rc := []ReplayCase{{Harness: v.Harness, Label: v.Label, Inputs: v.Inputs, Params: v.Params, PBytes: v.PBytes}}
 		js, _ := json.MarshalIndent(rc, "", " ")
 		os.WriteFile(filepath.Join(dir, "replay.json"), js, 0o644)
 		info := fmt.Sprintf("property: %s\nharness: %s\nassertion: %s\ninputs: %s\nobserved: %s\ndetail: %s\n\nreplay: cd /verif && bin/check replay %s\n",
